@@ -10,7 +10,7 @@ from .. import recon as R
 ID = "C01"
 LEVEL = "proof"
 PROP_FILE = "Properties/C01.v"
-PROOF_FILES = ["Proofs/ThlProofs.v", "Proofs/ExhProofs.v", "Proofs/EntryProofs.v", "Proofs/ReconProofs.v", "Proofs/PathFacts.v",
+PROOF_FILES = ["Proofs/AllAnyProofs.v", "Proofs/ThlProofs.v", "Proofs/ExhProofs.v", "Proofs/EntryProofs.v", "Proofs/ReconProofs.v", "Proofs/PathFacts.v",
                "Model/Thl.v", "Model/Recon.v", "Model/Entry.v", "Base/PathB.v", "Base/Ext.v"]
 TRUSTED = ["model Model/Thl.v of _compute_thl_table/_decode_thl_table/reconcile_thl and generate_all/reconcile_exhaustive (after fixes D2-D4), built on the Entry model (C16) and the evaluator model (C06)"]
 ASSUMES = ["binary trees", "cost vectors in the coherent region spe <= dup + 2*floss for the optimality clauses (F-COHERENCE, DESIGN section 9)"]
@@ -214,7 +214,7 @@ TECHNIQUE = ("Coq proof: refinement of the faithful table model (aggregator entr
              "one-node lemma optimiser charge = evaluator charge inside the coherent region, lower bound + attainment + decode soundness/completeness by induction on the object tree; "
              "exhaustive enumerator = valid reconciliations by induction; models tied to the code by exhaustive small inputs x cost grid + random inputs")
 LEVEL_TEXT = ("Machine-checked for all binary trees, leaf assignments and cost vectors with 0<=floss, spe<=dup+2*floss, transfer cost finite or +inf: "
-              "reconcile_thl(ALL) returns exactly the valid minimum-cost reconciliations (each once), reconcile_thl(ANY) exactly one of them, the result is never empty; "
+              "reconcile_thl(ALL) returns exactly the valid minimum-cost reconciliations (each once), reconcile_thl(ANY) exactly one of them (for any enumeration order of the root species: C01_thl_any_order; exhaustive: any order of the candidates), the result is never empty; "
               "validity holds for any unit costs; generate_all yields every valid reconciliation exactly once and reconcile_exhaustive exactly the optimal ones (any costs). "
               "The models are compared with reconcile_thl (ALL set, ANY membership), every value of _compute_thl_table, reconcile_exhaustive and generate_all on all inputs up to 3/3 leaves "
               "(quick) x a coherent cost grid and on random inputs up to 5/6 leaves; the brute-force oracle classifies disagreements.")
